@@ -102,11 +102,28 @@ fn key_path(m: &Val, sels: &[u16], miss: u8, fallback: &Val) -> Vec<Val> {
         let pairs = match &cur {
             Val::Map(p) if !p.is_empty() => p.clone(),
             _ => {
-                // the path is longer than the nesting: mostly stop here
-                if i > 0 && (miss as usize + i) % 3 != 0 {
+                // the path is longer than the nesting: often stop here
+                if i > 0 && (miss as usize + i) % 3 == 1 {
                     break;
                 }
-                out.push(fallback.clone());
+                // past a missing / non-map value, continue with keys of the OUTERMOST map (map-valued
+                // ones first): an implementation that loses track of where it is would find them
+                let top: Vec<&(Val, Val)> = match m {
+                    Val::Map(p) => {
+                        let maps: Vec<&(Val, Val)> = p.iter().filter(|(_, v)| matches!(v, Val::Map(_))).collect();
+                        if maps.is_empty() {
+                            p.iter().collect()
+                        } else {
+                            maps
+                        }
+                    }
+                    _ => vec![],
+                };
+                if !top.is_empty() && (miss as usize + i) % 2 == 0 {
+                    out.push(top[idx(*s, top.len())].0.clone());
+                } else {
+                    out.push(fallback.clone());
+                }
                 continue;
             }
         };
